@@ -128,3 +128,31 @@ extern "C" void h_ctor_uint32() {
     if (!(vfr_state(&r) & 1)) { VWITNESS("uint-beyond-word"); }
     VWITNESS("ctor-uint");
 }
+// ---- representation management: copies, moves, reset (a stale part must never become "valid")
+extern "C" void h_copy_assign() {
+    FR a, b; vfr_make(&a, ALLKINDS); vfr_make(&b, ALLKINDS); vfr_snapshot(1, &b);
+    a = b;
+    VASSERT(vfr_same_as(1, &a), "a = b: a has b's value");
+    WF(a, "a = b: target well-formed (no stale part marked valid), word iff it fits");
+    VASSERT(vfr_same_as(1, &b) && vfr_wellformed(&b), "a = b: source unchanged");
+    if ((vfr_state(&b) & 1) && !(vfr_state(&a) & 4)) { VWITNESS("word-value-assigned"); }
+    VWITNESS("copy-assign");
+}
+extern "C" void h_move_and_copy_ctor() {
+    FR b; vfr_make(&b, ALLKINDS); vfr_snapshot(1, &b);
+    FR c(b);
+    VASSERT(vfr_same_as(1, &c) && vfr_wellformed(&c), "copy constructor: same value, well-formed");
+    VASSERT(vfr_same_as(1, &b) && vfr_wellformed(&b), "copy constructor: source unchanged");
+    FR m(std::move(b));
+    VASSERT(vfr_same_as(1, &m) && vfr_wellformed(&m), "move constructor: same value, well-formed");
+    FR t; vfr_make(&t, ALLKINDS);
+    t = std::move(m);
+    VASSERT(vfr_same_as(1, &t) && vfr_wellformed(&t), "move assignment: same value, well-formed");
+    VWITNESS("move-copy");
+}
+extern "C" void h_reset() {
+    FR a; vfr_make(&a, ALLKINDS);
+    a.reset();
+    VASSERT(vfr_is_frac(&a, 0, 1) && vfr_wellformed(&a), "reset() yields a well-formed zero");
+    VWITNESS("reset");
+}
